@@ -768,6 +768,8 @@ WBXML_DECLARE(WBXMLError) wbxml_buffer_decode_base64(WBXMLBuffer *buffer)
     if ((len = wbxml_base64_decode((const WB_UTINY *) wbxml_buffer_get_cstr(buffer),
                                    wbxml_buffer_len(buffer), &result)) <= 0)
     {
+        /* An empty result is allocated too */
+        wbxml_free(result);
         return WBXML_ERROR_B64_DEC;
     }
     
